@@ -18,112 +18,137 @@ def _alpha(*acts):
     return alphabet
 
 
-def _explored_flag(st):
-    # cheap: the path tells nothing; read it off the pickled sampler only when needed
-    return st.sampler().explored
+def _toggle_ok(st, tier, every):
+    """toggle positions: every batch boundary of the sampling phase and the end of exploration
+    (thorough: everywhere); before that only every `every`-th boundary"""
+    if tier == 'thorough':
+        return True
+    return st.explored and st.depth % 2 == 0 or st.depth % every == 0
 
 
-def cfg_C01(tier, scn=None):
-    return dict(alphabet=_alpha(('step',), ('resume',)),
-                monitors=[M.mon_exception('C01'), M.mon_partition],
-                R=1 if tier == 'quick' else 2, T=0)
-
-
-def _alpha_t(tier, every):
-    """step / resume everywhere; toggle at every batch boundary (thorough) or every `every`-th"""
-    def alphabet(st):
-        acts = [('step',), ('resume',)]
-        if tier == 'thorough' or st.depth % every == 0:
-            acts.append(('toggle',))
-        return acts
-    return alphabet
-
-
-def cfg_C02(tier, scn=None):
-    return dict(alphabet=_alpha_t(tier, 4),
-                monitors=[M.mon_exception('C02'), M.mon_estimators],
-                R=1, T=1 if tier == 'quick' else 2)
-
-
-def cfg_C03(tier, scn=None):
-    return dict(alphabet=_alpha_t(tier, 5),
-                monitors=[M.mon_exception('C03'), M.mon_rows],
-                R=1 if tier == 'quick' else 2, T=1)
-
-
-def _alpha_C05(tier):
-    def alphabet(st):
-        acts = [('step',), ('resume',)]
-        if tier == 'thorough' or st.depth == 0 or (st.path and st.path[-1][0] == 'resume'):
-            acts.append(('finish',))
-        if tier == 'thorough' or st.depth % 3 == 0:
-            acts.append(('run2',))
-            acts.append(('tick', 2))
-        if tier == 'thorough':
-            acts.append(('tick', 3))
-        return acts
-    return alphabet
-
-
-def cfg_C05(tier, scn=None):
-    return dict(alphabet=_alpha_C05(tier),
-                monitors=[M.mon_exception('C05'), M.mon_once('C05')],
-                R=1 if tier == 'quick' else 2, T=0)
+def _terminal_raise(st):
+    """at a terminal state whose targets are still the scenario's: raise the n_eff target above what
+    has been reached (x1.25)"""
+    if not any(a[0] == 'raise' for a in st.path):
+        n_eff, n_shell = st.target
+        return [('raise', int(max(n_eff, st.n_eff) * 1.25) + 5, n_shell)]
+    return []
 
 
 def _loops_C10(st):
     return [('cap', 'zero'), ('cap', 'below'), ('cap', 'at'), ('tick', 0), ('tick', 1)]
 
 
-def cfg_C10(tier, scn=None):
-    def alphabet(st):
-        acts = [('step',), ('resume',), ('tick', 2)]
-        if tier == 'thorough' or st.depth % 2 == 0:
-            acts += [('run2',), ('tick', 3)]
-        if st.depth == 0 or (st.path and st.path[-1][0] == 'resume' and (
-                tier == 'thorough' or st.depth % 4 == 0)):
-            acts.append(('finish',))
-        return acts
-
-    return dict(alphabet=alphabet, loops=_loops_C10,
-                monitors=[M.mon_exception('C10'), M.mon_calls, M.mon_noop('C10')],
-                R=1, T=0, terminal_alphabet=_terminal_raise)
-
-
-def _terminal_raise(st):
-    """at a terminal state whose targets are still the scenario's: raise n_eff (x1.6) or n_shell"""
-    if not any(a[0] == 'raise' for a in st.path):
-        n_eff, n_shell = st.target
-        return [('raise', int(n_eff * 1.6), n_shell), ('raise', n_eff, 4)]
-    return []
-
-
 def _loops_C11(st):
     return [('observe',)]
 
 
-def cfg_C11(tier, scn=None):
-    def alphabet(st):
-        acts = [('step',)]
-        if scn is not None and scn['pool_l']:
-            acts += [('sched', 'rev'), ('sched', 'rot1')]
-            if tier == 'thorough':
-                acts += [('sched', 'rot2'), ('sched', 'perm3'), ('sched', 'perm7')]
-        return acts
-    return dict(alphabet=alphabet, loops=_loops_C11,
-                monitors=[M.mon_exception('C11'), M.mon_pure],
-                R=0, T=0, S=1 if tier == 'quick' else 2)
+# variants: every (scenario, variant) pair is one exploration job with its own sub-alphabet - all of
+# them start from the initial state, so the union of the explored histories is what is reported.
+VARIANTS = dict(
+    C01=dict(quick=['resume'], thorough=['resume2']),
+    C02=dict(quick=['resume', 'toggle'], thorough=['resume', 'toggle2']),
+    C03=dict(quick=['resume', 'toggle'], thorough=['resume2', 'toggle']),
+    C05=dict(quick=['resume', 'slices'], thorough=['resume2', 'slices', 'mixed']),
+    C10=dict(quick=['slices', 'resume', 'raise'], thorough=['slices', 'resume', 'raise', 'finish']),
+    C11=dict(quick=['observe'], thorough=['observe']),
+    C12=dict(quick=['toggle-resume', 'toggle2'], thorough=['toggle-resume', 'toggle3', 'raise']),
+)
 
 
-def cfg_C12(tier, scn=None):
-    return dict(alphabet=_alpha_t(tier, 3),
-                monitors=[M.mon_exception('C12'), M.mon_freeze, M.mon_toggle,
-                          M.mon_resume_obs('C12')],
-                R=1, T=2 if tier == 'quick' else 3, terminal_alphabet=_terminal_raise)
+def config(prop, tier, scn, variant):
+    mons = {
+        'C01': [M.mon_exception('C01'), M.mon_partition],
+        'C02': [M.mon_exception('C02'), M.mon_estimators],
+        'C03': [M.mon_exception('C03'), M.mon_rows],
+        'C05': [M.mon_exception('C05'), M.mon_once('C05')],
+        'C10': [M.mon_exception('C10'), M.mon_calls, M.mon_noop('C10')],
+        'C11': [M.mon_exception('C11'), M.mon_pure],
+        'C12': [M.mon_exception('C12'), M.mon_freeze, M.mon_toggle, M.mon_resume_obs('C12')],
+    }[prop]
+    cfg = dict(monitors=mons, R=0, T=0, S=0)
+    if variant == 'resume':
+        cfg.update(alphabet=_alpha(('step',), ('resume',)), R=1)
+        if prop == 'C05':
+            def alphabet(st):
+                acts = [('step',), ('resume',)]
+                if st.depth == 0 or st.path[-1][0] == 'resume':
+                    acts.append(('finish',))
+                return acts
+            cfg['alphabet'] = alphabet
+        if prop == 'C10':
+            cfg['loops'] = lambda st: _loops_C10(st) if (st.path and st.path[-1][0] == 'resume') \
+                else []
+    elif variant == 'resume2':
+        cfg.update(alphabet=_alpha(('step',), ('resume',)), R=2)
+    elif variant in ('toggle', 'toggle2'):
+        def alphabet(st):
+            acts = [('step',), ('resume',)]
+            if _toggle_ok(st, tier, 5):
+                acts.append(('toggle',))
+            return acts
+        cfg.update(alphabet=alphabet, R=1, T=1 if variant == 'toggle' else 2)
+    elif variant == 'slices':
+        def alphabet(st):
+            acts = [('step',), ('run2',), ('tick', 2), ('tick', 3)]
+            if prop == 'C05' and (tier == 'thorough' or st.depth % 2 == 0):
+                acts.append(('finish',))
+            return acts
+        cfg.update(alphabet=alphabet)
+        if prop == 'C10':
+            cfg['loops'] = _loops_C10
+    elif variant == 'mixed':
+        def alphabet(st):
+            acts = [('step',), ('resume',), ('run2',), ('tick', 2)]
+            if st.path and st.path[-1][0] == 'resume':
+                acts.append(('finish',))
+            return acts
+        cfg.update(alphabet=alphabet, R=2)
+    elif variant == 'finish':
+        cfg.update(alphabet=_alpha(('step',), ('finish',)))
+    elif variant == 'raise':
+        cfg.update(alphabet=_alpha(('step',)), terminal_alphabet=_terminal_raise)
+        if prop == 'C12':
+            def alphabet(st):
+                acts = [('step',)]
+                if any(a[0] == 'raise' for a in st.path):
+                    acts += [('resume',), ('toggle',)]
+                return acts
+            cfg.update(alphabet=alphabet, R=1, T=1)
+        if prop == 'C10':
+            def alphabet(st):
+                acts = [('step',)]
+                if any(a[0] == 'raise' for a in st.path):
+                    acts += [('resume',), ('run2',)]
+                return acts
+            cfg.update(alphabet=alphabet, R=1)
+    elif variant == 'observe':
+        def alphabet(st):
+            acts = [('step',)]
+            if scn['pool_l']:
+                acts += [('sched', 'rev'), ('sched', 'rot1')]
+                if tier == 'thorough':
+                    acts += [('sched', 'rot2'), ('sched', 'perm3'), ('sched', 'perm7')]
+            return acts
+        cfg.update(alphabet=alphabet, loops=_loops_C11, S=1 if tier == 'quick' else 2)
+    elif variant == 'toggle-resume':
+        def alphabet(st):
+            acts = [('step',), ('resume',)]
+            if _toggle_ok(st, tier, 4):
+                acts.append(('toggle',))
+            return acts
+        cfg.update(alphabet=alphabet, R=1, T=1)
+    elif variant in ('toggle2', 'toggle3'):
+        def alphabet(st):
+            acts = [('step',)]
+            if st.explored or tier == 'thorough' and st.depth % 3 == 0:
+                acts.append(('toggle',))
+            return acts
+        cfg.update(alphabet=alphabet, T=2 if variant == 'toggle2' else 3)
+    else:
+        raise KeyError(variant)
+    return cfg
 
-
-CONFIGS = dict(C01=cfg_C01, C02=cfg_C02, C03=cfg_C03, C05=cfg_C05, C10=cfg_C10, C11=cfg_C11,
-               C12=cfg_C12)
 
 SCENARIOS = dict(
     C01=dict(quick=['gauss', 'two', 'wrap_net', 'half'],
@@ -157,17 +182,16 @@ SCENARIOS = dict(
 LEVEL = 'model_checking'
 
 
-def _job(prop, tier, scn_dict):
-    d = dict(scn_dict)
-    name = d.pop('name')
-    seed = d.pop('seed')
-    scn = scen.Scenario(name, **d)
-    scn['seed'] = seed
-    cfg = CONFIGS[prop](tier, scn)
-    return smc.explore(scn, cfg['alphabet'], cfg['monitors'], R=cfg.get('R', 1), T=cfg.get('T', 0),
-                       S=cfg.get('S', 0), loops=cfg.get('loops'),
-                       terminal_alphabet=cfg.get('terminal_alphabet'),
-                       max_states=cfg.get('max_states', 6000), time_cap=cfg.get('time_cap'))
+def _job(prop, tier, scn_dict, variant):
+    scn = _mk(scn_dict)
+    cfg = config(prop, tier, scn, variant)
+    r = smc.explore(scn, cfg['alphabet'], cfg['monitors'], R=cfg.get('R', 1), T=cfg.get('T', 0),
+                    S=cfg.get('S', 0), loops=cfg.get('loops'),
+                    terminal_alphabet=cfg.get('terminal_alphabet'),
+                    max_states=cfg.get('max_states', 6000), time_cap=cfg.get('time_cap'))
+    r['variant'] = variant
+    r['budgets'] = dict(R=cfg.get('R', 0), T=cfg.get('T', 0), S=cfg.get('S', 0))
+    return r
 
 
 def _det_job(scn_dict, depth, variant):
@@ -283,79 +307,167 @@ def _mp_job(scn_dict, size, depth):
                 depth=0)
 
 
+def _steps_obs(scn, path):
+    """observation digest after every `step` of a path, keyed by the number of steps taken; also the
+    observation right after each toggle/resume (keyed ('toggle'|'resume', steps taken))"""
+    eng = smc.Engine(scn, [])
+    out = {}
+    try:
+        st = eng.initial()
+        n = 0
+        k_exp = None
+        for act in path:
+            new, ctx = eng.apply(st, tuple(act))
+            if new is None:
+                out[('EXC', n)] = str(ctx['exc'])
+                break
+            s = ctx['post']
+            if act[0] == 'step':
+                n += 1
+            if s.explored and k_exp is None:
+                k_exp = n
+            if len(s.bounds) and int(sum(len(x) for x in s.log_l)) > 0:
+                try:
+                    d = smc.observation(s)[0]
+                except Exception as e:
+                    d = 'EXC:{}:{}'.format(type(e).__name__, str(e)[:80])
+                out[n if act[0] == 'step' else (act[0], n)] = d
+            st = new
+        return out, k_exp, st.skey, st.fkey
+    finally:
+        eng.close()
+
+
 def _three_ways_job(scn_dict):
     """C12: the three ways of getting discard_exploration on (argument of run(); setter right after
     exploration ended; setter after a resume) give the same statistics at every later batch."""
     base = _mk(scn_dict, discard=False)
     arg = _mk(scn_dict, discard=True)
-    # depth at which exploration ends on the default path
-    eng = smc.Engine(base, [])
-    try:
-        st = eng.initial()
-        k_exp = None
-        for k in range(400):
-            new, ctx = eng.apply(st, ('step',))
-            st = new
-            if ctx['post'].explored:
-                k_exp = k + 1
-                break
-    finally:
-        eng.close()
+    tail = 5
+    o_arg_full, k_exp, _, _ = _steps_obs(arg, [('step',)] * 300)
     out = []
     if k_exp is None:
         return dict(violations=out, label='3ways', scenario=scn_dict['name'], depth=0, final=None)
-    tail = 6
-    p_arg = [('step',)] * (k_exp + tail)
-    p_set = [('step',)] * k_exp + [('toggle',)] + [('step',)] * tail
-    p_res = [('step',)] * k_exp + [('resume',), ('toggle',)] + [('step',)] * tail
-    p_res2 = [('step',)] * k_exp + [('toggle',), ('step',), ('resume',)] + [('step',)] * (tail - 1)
-    o_arg, s_arg, k_arg, f_arg = _path_obs(arg, p_arg)
-    o_set, s_set, k_set, f_set = _path_obs(base, p_set)
-    o_res, s_res, k_res, f_res = _path_obs(base, p_res)
-    o_res2, s_res2, k_res2, f_res2 = _path_obs(base, p_res2)
-    ref = o_arg[k_exp - 1:]
-    cmp = [('setter-after-run', [o_set[k_exp - 1]] + o_set[k_exp + 1:], p_set),
-           ('setter-after-resume', [o_res[k_exp - 1]] + o_res[k_exp + 2:], p_res),
-           ('setter-step-resume', [o_res2[k_exp - 1]] + [o_res2[k_exp + 1]] + o_res2[k_exp + 3:],
-            p_res2)]
-    # before the toggle the non-discarding sampler legitimately shows the exploration samples
-    for label, got, path in cmp:
-        g = got[1:]
-        r = ref[1:len(g) + 1]
-        if g != r:
-            j = next((i for i in range(min(len(g), len(r))) if g[i] != r[i]), -1)
-            out.append(Violation('C12', 'threeways:' + label + (
-                ':raises' if any(isinstance(x, str) and x.startswith('EXC') for x in g) else ''),
-                'discard_exploration requested through run() and through "{}" give different '
-                'statistics {} batch(es) after exploration ended: {} vs {}'.format(
-                    label, j + 1, g[j] if j >= 0 else g, r[j] if j >= 0 else r),
+    n_arg = max(k for k in o_arg_full if isinstance(k, int))
+    tail = min(tail, n_arg - k_exp)
+    paths = {
+        'setter-after-run': [('step',)] * k_exp + [('toggle',)] + [('step',)] * tail,
+        'setter-after-resume': [('step',)] * k_exp + [('resume',), ('toggle',)] + [('step',)] * tail,
+        'setter-step-resume': [('step',)] * k_exp + [('toggle',), ('step',), ('resume',)] + [
+            ('step',)] * max(tail - 1, 0),
+    }
+    n_tr = 0
+    ref_state = None
+    for label, path in paths.items():
+        o, k2, skey, fkey = _steps_obs(base, path)
+        n_tr += len(path)
+        exc = [v for k, v in o.items() if isinstance(v, str) and v.startswith('EXC')] + [
+            v for k, v in o.items() if isinstance(k, tuple) and k[0] == 'EXC']
+        diffs = []
+        # the view right after the toggle equals the discarding run at the same batch
+        tk = ('toggle', k_exp)
+        if tk in o and o[tk] != o_arg_full.get(k_exp):
+            diffs.append(0)
+        for n in range(k_exp + 1, k_exp + tail + 1):
+            if n in o and n in o_arg_full and o[n] != o_arg_full[n]:
+                diffs.append(n - k_exp)
+        rk = ('resume', k_exp + 1)
+        if rk in o and o[rk] != o_arg_full.get(k_exp + 1):
+            diffs.append(1)
+        if exc or diffs:
+            out.append(Violation(
+                'C12', 'threeways:' + label + (':raises' if exc else ''),
+                'scenario {}: discard_exploration requested through run() and through "{}" give '
+                'different statistics {} batch(es) after exploration ended{}'.format(
+                    scn_dict['name'], label, sorted(set(diffs)), ' (' + exc[0] + ')' if exc else ''),
                 dict(kind='threeways', scenario=scn_dict, label=label, path=path)))
-    if k_arg != k_set and not out:
-        out.append(Violation('C12', 'threeways:sampler-state', 'run(discard_exploration=True) and '
-                             'the setter reach different sampler states',
-                             dict(kind='threeways', scenario=scn_dict, label='state')))
-    if f_arg != f_set and not out:
-        out.append(Violation('C12', 'threeways:file-state', 'run(discard_exploration=True) and the '
-                             'setter leave different checkpoint contents after the next checkpoint '
-                             'operations', dict(kind='threeways', scenario=scn_dict, label='file')))
-    return dict(violations=out, label='3ways', scenario=scn_dict['name'], depth=k_exp + tail,
-                final=s_arg)
+    return dict(violations=out, label='3ways', scenario=scn_dict['name'], depth=n_tr + n_arg,
+                final=None)
+
+
+def _checkpoints_job(prop, scn_dict):
+    """C01/C02: every COMPLETED checkpoint of an uninterrupted run - including the mid-step ones (the
+    full write right after a bound insertion, the update before the end-of-exploration write) that no
+    batch-boundary stop can show - is resumed and checked with the state monitor"""
+    import hashlib
+    import shutil
+    from nautilus import Sampler
+    scn = _mk(scn_dict, file=True)
+    root = core.scratch_root()
+    images = []
+    origs = {}
+
+    def wrap(name):
+        orig = getattr(Sampler, name)
+        origs[name] = orig
+
+        def wrapped(self, *a, **k):
+            r = orig(self, *a, **k)
+            with open(self.filepath, 'rb') as f:
+                images.append((name, int(self.n_like), len(self.bounds), f.read()))
+            return r
+        setattr(Sampler, name, wrapped)
+    out = []
+    n = 0
+    scen.LOG['on'] = False
+    try:
+        wrap('write')
+        wrap('write_shell_update')
+        path = os.path.join(root, 'ck.h5')
+        try:
+            s = scn.build(filepath=path, resume=False)
+            s.run(**scn.run_args())
+        finally:
+            for k, v in origs.items():
+                setattr(Sampler, k, v)
+        seen = set()
+        check = M.check_partition if prop == 'C01' else M.check_estimators
+        for j, (kind, n_like, nb, img) in enumerate(images):
+            h = hashlib.sha1(img).hexdigest()
+            if h in seen:
+                continue
+            seen.add(h)
+            with open(path, 'wb') as f:
+                f.write(img)
+            try:
+                s2 = scn.build(filepath=path, resume=True)
+                vs = check(s2, prop=prop, where='@checkpoint')
+            except Exception as e:
+                vs = [Violation(prop, 'exception:checkpoint-resume:' + type(e).__name__, str(e)[:300])]
+            n += 1
+            for v in vs:
+                v['explanation'] = 'checkpoint operation {} ({}, n_like={}, {} bounds): {}'.format(
+                    j, kind, n_like, nb, v['explanation'])
+                v['replay'] = dict(kind='checkpoints', scenario=dict(scn), op=j)
+                out.append(v)
+    finally:
+        scen.LOG['on'] = True
+        shutil.rmtree(root, ignore_errors=True)
+    return dict(violations=out, label='completed-checkpoints', scenario=scn.name, depth=n,
+                final=None)
 
 
 def terminal_agreement(prop, scns, results):
+    """all terminal states of one scenario with the same targets and the same toggle history must
+    show one observation - across all variants explored for that scenario"""
     out = []
+    merged = {}
     for s, r in zip(scns, results):
         for cls, obs in r['terminals'].items():
-            if len(obs) > 1:
-                items = sorted(obs.items(), key=lambda kv: len(kv[1]['path']))
-                (d0, a), (d1, b) = items[0], items[1]
-                out.append(Violation(
-                    prop, 'terminal:results-differ',
-                    'scenario {}: two histories of the same computation end with different results: '
-                    '{} via {} actions vs {} via {} actions ({} classes in total)'.format(
-                        s.name, a['summary'], len(a['path']), b['summary'], len(b['path']),
-                        len(obs)),
-                    dict(kind='terminal', scenario=dict(s), path=a['path'], path_b=b['path'])))
+            m = merged.setdefault((s.name, cls), (s, {}))[1]
+            for d, v in obs.items():
+                if d not in m or len(v['path']) < len(m[d]['path']):
+                    m[d] = v
+    for (name, cls), (s, obs) in merged.items():
+        if len(obs) > 1:
+            items = sorted(obs.items(), key=lambda kv: len(kv[1]['path']))
+            (d0, a), (d1, b) = items[0], items[1]
+            out.append(Violation(
+                prop, 'terminal:results-differ',
+                'scenario {}: two histories of the same computation end with different results: '
+                '{} via {} actions vs {} via {} actions ({} classes in total)'.format(
+                    name, a['summary'], len(a['path']), b['summary'], len(b['path']), len(obs)),
+                dict(kind='terminal', scenario=dict(s), path=a['path'], path_b=b['path'])))
     return out
 
 
@@ -381,10 +493,16 @@ def extra_jobs(prop, tier, scns, results):
     if prop == 'C12':
         for s in scns:
             jobs.append(('threeways', dict(s)))
+    if prop in ('C01', 'C02'):
+        for s in scns:
+            if s['file']:
+                jobs.append(('checkpoints', prop, dict(s)))
     return jobs
 
 
 def _any_job(kind, *args):
+    import warnings
+    warnings.simplefilter('ignore')
     if kind == 'explore':
         return _job(*args)
     if kind == 'pair':
@@ -393,35 +511,48 @@ def _any_job(kind, *args):
         return _mp_job(*args)
     if kind == 'threeways':
         return _three_ways_job(*args)
+    if kind == 'checkpoints':
+        return _checkpoints_job(*args)
     return _det_job(*args)
 
 
 def run(prop, tier):
-    """generic driver: explorations of all scenarios in parallel, then the determinism proof on the
-    default path of each (two fresh processes), then evidence."""
+    """generic driver: explorations of all (scenario, variant) pairs in parallel, then the
+    determinism proof on the default path of each scenario (two fresh processes), then evidence."""
     timer = core.Timer()
     names = SCENARIOS[prop][tier]
-    scns = scenarios.get(names)
-    results = core.pmap(_any_job, [('explore', prop, tier, dict(s)) for s in scns])
+    scns0 = scenarios.get(names)
+    variants = VARIANTS[prop][tier]
+    pairs = [(s, v) for s in scns0 for v in variants]
+    # long jobs first
+    results = core.pmap(_any_job, [('explore', prop, tier, dict(s), v) for s, v in pairs])
+    scns = [s for s, v in pairs]
     # determinism proof: default path replayed in two fresh processes
     det_jobs = []
+    first = {}
     for s, r in zip(scns, results):
+        if s.name in first:
+            continue
+        first[s.name] = r
         depth = min(len(r['default_keys']) - 1, 12 if tier == 'quick' else 40)
         for variant in (0, 1):
             det_jobs.append(('det', dict(s), depth, variant))
-    xjobs = extra_jobs(prop, tier, scns, results)
-    allres = core.pmap(_any_job, det_jobs + xjobs)
+    xjobs = extra_jobs(prop, tier, scns0, results)
+    pool_jobs = [j for j in xjobs if j[0] != 'mp']
+    main_jobs = [j for j in xjobs if j[0] == 'mp']
+    allres = core.pmap(_any_job, det_jobs + pool_jobs)
     det = allres[:len(det_jobs)]
-    xres = allres[len(det_jobs):]
+    xres = allres[len(det_jobs):] + [_any_job(*j) for j in main_jobs]
     n_det = 0
-    for i, (s, r) in enumerate(zip(scns, results)):
+    for i, name in enumerate(first):
+        r = first[name]
         a, b = det[2 * i], det[2 * i + 1]
         ref = r['default_keys'][:len(a)]
         if a != b or a != ref:
             k = next((j for j in range(min(len(a), len(b), len(ref)))
                       if not (a[j] == b[j] == ref[j])), -1)
             raise core.Inconclusive(
-                'HARNESS-NONDETERMINISM scenario={} first differing depth={}'.format(s.name, k))
+                'HARNESS-NONDETERMINISM scenario={} first differing depth={}'.format(name, k))
         n_det += 2
     violations = []
     for r, s in zip(results, scns):
@@ -435,35 +566,90 @@ def run(prop, tier):
         violations.extend(terminal_agreement(prop, scns, results))
     for x in xres:
         violations.extend(x['violations'])
-    transitions_x = sum(x.get('depth', 0) for x in xres)
     states = sum(r['states'] for r in results)
     transitions = sum(r['transitions'] for r in results)
-    capped = [(r['scenario'], r['capped']) for r in results if r['capped']]
-    classes = {r['scenario']: {k: len(v) for k, v in r['terminals'].items()} for r in results}
+    capped = [(r['scenario'], r['variant'], r['capped']) for r in results if r['capped']]
     samples = []
     for r in results:
-        samples.extend(r['samples'][:2])
-    cfg = CONFIGS[prop](tier)
+        samples.extend(r['samples'][:1])
     coverage = dict(
         states=states, transitions=transitions,
         traces_validated_against_impl=transitions + n_det + len(xres),
-        product_runs=[dict(scenario=x['scenario'], label=x['label'], depth=x['depth']) for x in xres],
+        product_runs=[dict(scenario=x['scenario'], label=x['label'], depth=x['depth'])
+                      for x in xres],
         samples=samples[:8],
         exhaustive=not capped,
         caps_hit=capped,
-        deviation_bounds=dict(resumes=cfg.get('R', 1), toggles=cfg.get('T', 0),
-                              schedule_deviations=cfg.get('S', 0)),
-        per_scenario=[dict(scenario=r['scenario'], states=r['states'],
-                           transitions=r['transitions'], max_depth=r['max_depth'],
-                           exceptions=r['exceptions'], wall_s=round(r['wall'], 1),
-                           terminal_observation_classes=classes[r['scenario']])
-                      for r in results],
-        scenarios=[s.describe() for s in scns],
+        per_exploration=[dict(scenario=r['scenario'], variant=r['variant'], budgets=r['budgets'],
+                              states=r['states'], transitions=r['transitions'],
+                              max_depth=r['max_depth'], exceptions=r['exceptions'],
+                              wall_s=round(r['wall'], 1),
+                              terminal_observation_classes={k: len(v) for k, v in
+                                                            r['terminals'].items()})
+                         for r in results],
+        scenarios=[s.describe() for s in scns0],
         determinism_replays=n_det,
         explanation='every transition is one public-API call on the real nautilus.Sampler '
                     '(unpickled from the explored state, checkpoint file materialised in a private '
                     'scratch directory); states are de-duplicated on a structural digest of the '
-                    'whole sampler + logical HDF5 content + evaluated-point set; the default path '
-                    'of every scenario was replayed in two fresh processes (different '
-                    'PYTHONHASHSEED, legacy numpy seed, COLUMNS) with identical per-depth digests')
+                    'whole sampler + logical HDF5 content + evaluated-point set; each (scenario, '
+                    'variant) is a complete breadth-first exploration of the histories over the '
+                    'variant\'s action alphabet within its deviation budgets (R resumes, T toggles, '
+                    'S pool-schedule deviations); the default path of every scenario was replayed '
+                    'in two fresh processes (different PYTHONHASHSEED, legacy numpy seed, COLUMNS) '
+                    'with identical per-depth digests',
+        assumptions=ASSUMPTIONS.get(prop, []) + COMMON_ASSUMPTIONS)
     return coverage, violations, timer()
+
+
+COMMON_ASSUMPTIONS = [
+    'finite scenario alphabet (likelihood x configuration x seed, shifted by VERIF_SEED); exhaustive '
+    'within each scenario and budget, not over all likelihoods and seeds',
+    'FakePool (pickle-isolated tasks, ordered map) models a process pool',
+]
+ASSUMPTIONS = dict(
+    C01=['contains() of the implementation is the membership predicate (C07/C09 guard its meaning)'],
+    C02=['float comparisons at rtol 1e-9 (the oracle sums in a different order); states where every '
+         'stored likelihood is -inf are skipped (estimators undefined)'],
+    C03=['likelihoods use only + - * / sqrt floor where, so scalar and vectorised evaluation are '
+         'bit-identical'],
+    C05=['mid-step checkpoints (visible only to a kill) belong to C06'],
+    C10=['virtual clock: one tick per look at the clock, so timeout=k allows max(k-1,0) batches; '
+         'return value checked except when the recomputed n_eff is within 1e-9 of the target'],
+    C11=['"unweighted posterior" is read as posterior() with default arguments; '
+         'posterior(equal_weight=True) draws from the generator by design (C14)'],
+    C12=['a toggle made after the last checkpoint is not persisted; a resumed sampler is compared '
+         'with the state as of the last checkpoint'],
+)
+
+
+def replay(prop, path):
+    with open(path) as f:
+        rep = json.load(f)
+    r = rep['replay']
+    kind = r.get('kind', 'path')
+    print('replaying', rep['signature'])
+    if kind == 'pair':
+        out = _pair_job(r['scenario'], r['over_a'], r['over_b'], r['label'], r['depth'])['violations']
+    elif kind == 'mp':
+        out = _mp_job(r['scenario'], r['size'], 0)['violations']
+    elif kind == 'threeways':
+        out = _three_ways_job(r['scenario'])['violations']
+    elif kind == 'checkpoints':
+        out = _checkpoints_job(prop, r['scenario'])['violations']
+    elif kind == 'terminal':
+        scn = _mk(r['scenario'])
+        oa = _path_obs(scn, r['path'])
+        ob = _path_obs(scn, r['path_b'])
+        out = []
+        if oa[0][-1] != ob[0][-1]:
+            out = [Violation(prop, rep['signature'], 'results differ: {} vs {}'.format(oa[1], ob[1]))]
+    else:
+        scn = _mk(r['scenario'])
+        mons = config(prop, 'thorough', scn, VARIANTS[prop]['thorough'][0])['monitors']
+        keys, out = smc.replay_path(scn, [tuple(a) for a in r['path']], mons)
+    hit = [v for v in out if v['signature'] == rep['signature']]
+    for v in hit[:1]:
+        print('VIOLATION property={} replay={}'.format(prop, path))
+        print(' ', v['signature'], str(v['explanation'])[:600])
+    return 1 if hit else 0
